@@ -12,6 +12,8 @@ from .common import (REPO, SPEC, MachineryError, chunks, run_parallel, run_tlc, 
 from . import lex_table
 
 LEX_DIR = os.path.join(SPEC, "lex")
+# upper bound on concurrently running TLC processes (shards); lower it on a shared machine
+MAXPROC = int(os.environ.get("VERIF_MAXPROC", "14") or 14)
 
 
 def _tokenizer():
@@ -102,12 +104,15 @@ def _check_cfg(scratch_dir):
     return cfg
 
 
-def run_lexcheck(chk, scr, table_path, cases, part, nshards=None, timeout=1500):
+def run_lexcheck(chk, scr, table_path, cases, part, nshards=None, timeout=1500, env_extra=None):
     """Shard `cases` over single-worker TLC processes.  Returns list of failure dicts printed by TLC."""
     if not cases:
         return []
-    nshards = nshards or min(14, max(1, len(cases) // 400))
-    shards = chunks(cases, nshards)
+    weight = sum(len(c["text"]) for c in cases) + 20 * len(cases)
+    nshards = nshards or min(max(MAXPROC, 1) * 2 if MAXPROC < 8 else MAXPROC, max(1, weight // 12000))
+    # interleave so that every shard gets the same mix of cheap and expensive cases
+    shards = [cases[k::nshards] for k in range(nshards)]
+    shards = [s for s in shards if s]
     cfg = os.path.join(scr.path, "LexCheck-%s.cfg" % part)
     write_cfg(cfg, spec="Spec")
     jobs = []
@@ -116,11 +121,13 @@ def run_lexcheck(chk, scr, table_path, cases, part, nshards=None, timeout=1500):
         write_cases(cpath, sh)
 
         def job(cpath=cpath, k=k):
+            env = dict(env_extra or {})
+            env.update({"LEX_TABLE": table_path, "CASES_FILE": cpath})
             return run_tlc(os.path.join(LEX_DIR, "LexCheck.tla"), cfg, lib_areas=("lex",), workers=1,
-                           env={"LEX_TABLE": table_path, "CASES_FILE": cpath}, timeout=timeout,
+                           env=env, timeout=timeout,
                            metadir=os.path.join(scr.path, "meta-%s-%d" % (part, k)))
         jobs.append(job)
-    results = run_parallel(jobs, nproc=min(len(jobs), 14))
+    results = run_parallel(jobs, nproc=min(len(jobs), MAXPROC))
     fails = []
     consumed = 0
     for res, sh in zip(results, shards):
@@ -138,5 +145,4 @@ def run_lexcheck(chk, scr, table_path, cases, part, nshards=None, timeout=1500):
                 fails.append(obj)
         if not got_summary:
             raise MachineryError("LexCheck printed no summary (part %s)" % part)
-    n_summary_fail = len(fails)
     return fails
